@@ -2,6 +2,8 @@ use super::{
     ComplexProps, ElementProps, ElementType, Namespace, Rc, RustFieldType, RustType, SimpleProps, WriteXml,
     WriterError, WriterResult, as_string_literal_content, io, xml_name_to_rust_name,
 };
+use std::collections::{HashMap, HashSet};
+
 use crate::model::{
     helpers::{write_check_restrictions_footer, write_check_restrictions_header},
     field::{Field, OtherRustType},
@@ -152,17 +154,19 @@ where
 /// Members of one type may share a name (elements of two namespaces with the same local name, an attribute and an
 /// element): the second and later ones get a numbered field name, their XML names stay as they are.
 fn with_unique_rust_names(fields: &[Field]) -> Vec<Field> {
-    let mut taken: Vec<String> = Vec::new();
+    let mut taken: HashSet<String> = HashSet::new();
+    // the number that was appended last to a name (thousands of members may share one)
+    let mut last_number: HashMap<&str, usize> = HashMap::new();
     fields
         .iter()
         .map(|original| {
             let mut field = original.clone();
-            let mut n = 1;
+            let n = last_number.entry(original.rust_name.as_str()).or_insert(1);
             while taken.contains(&field.rust_name) {
-                n += 1;
+                *n += 1;
                 field.rust_name = format!("{}_{n}", original.rust_name);
             }
-            taken.push(field.rust_name.clone());
+            taken.insert(field.rust_name.clone());
             field
         })
         .collect()
